@@ -61,11 +61,12 @@ impl FileSystem {
         self.resolve_abs_path(format!(".upload_id-{upload_id}.part-{part_number}"))
     }
 
-    /// resolve object path under the virtual root
+    /// resolve object path under the bucket directory
     pub(crate) fn get_object_path(&self, bucket: &str, key: &str) -> Result<PathBuf> {
-        let dir = Path::new(&bucket);
+        let bucket_dir = self.get_bucket_path(bucket)?;
         let file_path = Path::new(&key);
-        self.resolve_abs_path(dir.join(file_path))
+        // the key must not escape its bucket (e.g. `../other-bucket/key`)
+        Ok(file_path.absolutize_virtually(&bucket_dir)?.into_owned())
     }
 
     /// resolve bucket path under the virtual root
